@@ -570,7 +570,7 @@ _det_gen = st.sampled_from(_DET_ONS).flatmap(
 def checks(tier):
     return [
         Check("tree-enum", run_tree, cases=_tree_enum_all, shards={"quick": 8, "thorough": 16}, exhaustive=True),
-        Check("tree", run_tree, strategy=_tree, examples={"quick": 2000, "thorough": 16 * 25000}, shards={"quick": 8, "thorough": 16}),
+        Check("tree", run_tree, strategy=_tree, examples={"quick": 2000, "thorough": 16 * 15000}, shards={"quick": 8, "thorough": 16}),
         Check("det-enum", run_det, cases=_det_enum, shards={"quick": 8, "thorough": 16}, exhaustive=True),
-        Check("det-gen", run_det, strategy=_det_gen, examples={"quick": 2400, "thorough": 16 * 10000}, shards={"quick": 8, "thorough": 16}),
+        Check("det-gen", run_det, strategy=_det_gen, examples={"quick": 2400, "thorough": 16 * 6000}, shards={"quick": 8, "thorough": 16}),
     ]
